@@ -19,7 +19,12 @@
 (*     answered with CKR_BUFFER_TOO_SMALL (sufficient);                    *)
 (*   - success writes at most min(announced, bound) bytes; Single and      *)
 (*     Final end the operation;                                            *)
-(*   - any other failure ends the operation.                               *)
+(*   - any other failure ends the operation;                               *)
+(*   - "unchanged" is meant to the byte: the output that a finishing call  *)
+(*     delivers is the mechanism's function of exactly the input of the    *)
+(*     ACCEPTED calls (fed): o.val = "bad" says that it is not (a length   *)
+(*     query or a refused too-small buffer has left a trace in it), and    *)
+(*     o.fedn, the input the driver counted, must be the model's count.    *)
 (* The model checker resolves o optimistically; the trace specification    *)
 (* binds o to what the implementation returned.                            *)
 (***************************************************************************)
@@ -128,6 +133,7 @@ Call(s, fn, n, a, o) ==
                  /\ ses' = [ses EXCEPT ![s].q = <<fn, n, o.L>>]
             ELSE IF o.rv = "OK" THEN                            \* real output
                  /\ a >= 0 /\ o.w <= a /\ o.w <= Bound(x, n) /\ o.w = o.L
+                 /\ (Ends(fn) => o.val # "bad" /\ o.fedn \in {-1, x.fed + n})
                  /\ IF Ends(fn) THEN Gone(s)
                     ELSE ses' = [ses EXCEPT ![s].fed = @ + n, ![s].out = @ + o.w, ![s].upd = TRUE, ![s].q = <<>>]
             ELSE Gone(s)                                        \* any other failure ends the operation
